@@ -170,6 +170,10 @@ def check(run, driver):
             G = nx.gnp_random_graph(n, 0.4, seed=seed, directed=True)
             if it % 2:
                 S.linear_stochastic_gaussian_process(0.5, n=n, T=3, seed=seed, G=G)   # the same graph object served another generator before
+        # keep the rates representable: a super-critical network (coupling * in-degree > 1) grows geometrically and NumPy's sampler
+        # rejects rates above ~9e18 -- a limit of the runtime, not of the generator under test
+        while (max(1.0, c * n) ** T) * (lam + 1.0) > 1e12:
+            c = c / 2
         cfg = dict(n=n, T=T, p=p, lambda_base=lam, coupling_strength=c, seed=seed)
         shim = NpShim()
         st_np, st_py = np.random.get_state()[1].copy(), random.getstate()
